@@ -82,7 +82,9 @@ def fn_hash(fns, name):
 
 
 def describe(fns, names):
-    return [{'fn': n, 'mir_sha': fn_hash(fns, n), 'mir_lines': fns[n].text.count('\n')} for n in names]
+    # functions that a refactor removed or renamed are listed as absent rather than crashing the report
+    return [{'fn': n, 'mir_sha': fn_hash(fns, n), 'mir_lines': fns[n].text.count('\n')} if n in fns and hasattr(fns[n], 'text') else {'fn': n, 'absent': True}
+            for n in names]
 
 
 def ident_ok(ch, first):
